@@ -27,6 +27,8 @@ pub mod point {
     pub const DROP_STORE_CLOSED: u32 = 31;
     pub const DROP_NOTIFY_WAITERS: u32 = 32;
     pub const CLONE_FETCH_ADD: u32 = 33;
+    pub const RECV_DROP_STORE_CLOSED: u32 = 34;
+    pub const RECV_DROP_NOTIFY_WAITERS: u32 = 35;
     pub const RECV_LOAD_ENDED: u32 = 40;
     pub const RECV_LOCK_POP: u32 = 41;
     pub const RECV_LOAD_CLOSED: u32 = 42;
